@@ -261,12 +261,14 @@ theorem lcl_readFragLoop_reach {σ} (hook : ObjHook σ) (req : ReadReq) (fuel : 
     | ok raw =>
       dsimp only
       split
-      · exact h1
+      · split <;> exact h1
       · split
         · exact lcl_Reach_trans (lcl_Reach_next h1) (ih _ _ _ _ _)
         · split
-          · split <;> exact h1
           · exact h1
+          · split
+            · split <;> exact h1
+            · exact h1
 
 theorem lcl_writeFragSend_reach {σ} (hook : ObjHook σ) (req : WriteReq) (segs : List (Nat × Bytes)) :
     ∀ (w : Cli.World σ) (allOk : Bool) (last : Option Resp),
